@@ -133,6 +133,8 @@ def _command(ctx, chk, compute):
         if b is None:
             chk.indeterminate("C18.O3", where_of(g, s.call), "result binding not recognised")
             continue
+        from ..report import row_integrity
+        row_integrity(chk, "C18.O3", g, b, "simulate_recession|row-integrity")
         for i, nm in enumerate(b.names):
             if nm is None:
                 continue
